@@ -41,7 +41,7 @@ def scenarios(draw):
     script = []
     for _ in range(draw(st.integers(0, 3))):
         ev = draw(st.sampled_from(["headers", "headers", "data", "request_complete", "response_sent", "settings_ack"]))
-        act = draw(st.sampled_from([{"settings": {"3": v}} for v in (1, 1, 2, 3, 5, 100)] + [{"rst": {"sid": "last"}}, {"rst": {"sid": "first"}}, {"ping": True}]))
+        act = draw(st.sampled_from([{"settings": {"3": v}} for v in (1, 1, 2, 3, 5, 100)] + [{"rst": {"sid": "last"}}, {"rst": {"sid": "first"}}, {"ping": True}, {"ping": {"gate": True}}, {"ping": {"gate": True}}]))
         script.append({"when": {"event": ev, "n": draw(st.integers(0, 4))}, "do": [act]})
     if n >= 3 and draw(st.integers(0, 2)) == 0:
         # a reactive server: the response to one request is produced only after ANOTHER request has been received. A correct client
